@@ -376,21 +376,52 @@ func c01FlameBuild(rs []catRoute, methods []string) (f *flamego.Flame, hit *int,
 func c01FlamePhase(r *core.Run, cat []catRoute, paths []string) {
 	t0 := time.Now()
 	defer func() { r.Notes["phase_wall_s/flame"] = time.Since(t0).Seconds() }()
-	methodsOf := [][]string{{"GET", "GET"}, {"GET", "POST"}, {"POST", "GET"}}
 	reqMethods := []string{"GET", "POST", "BREW"}
+	// configurations: every ordered pair of the reduced catalogue under {GG, GP, PG}, and every ordered
+	// triple of a small table (a literal path, the optional route whose long form covers it, their
+	// dynamic neighbours) under every assignment of {GET, POST} (the trees of the methods are separate;
+	// what is registered for one method is no business of the other)
+	type config struct {
+		rs []catRoute
+		ms []string
+	}
+	var configs []config
 	n := len(cat)
+	for c := 0; c < n*n; c++ {
+		if i, j := c/n, c%n; i != j {
+			for _, ms := range [][]string{{"GET", "GET"}, {"GET", "POST"}, {"POST", "GET"}} {
+				configs = append(configs, config{[]catRoute{cat[i], cat[j]}, ms})
+			}
+		}
+	}
+	if p, err := route.NewParser(); err == nil {
+		tri, _ := mkCatalogue(p, []string{"/a/b", "/a/?b", "/a/{p2}", "/{p1}/b", "/a", "/{m1: **}", "/a/?{o2}", "/a/{r2: /b+/}"})
+		r.Bounds["flame_triples"] = fmt.Sprintf("ordered triples of %d routes x {GET,POST}^3", len(tri))
+		for a := range tri {
+			for b := range tri {
+				for c := range tri {
+					if a == b || b == c || a == c {
+						continue
+					}
+					for bits := 0; bits < 8; bits++ {
+						ms := make([]string, 3)
+						for k := range ms {
+							ms[k] = []string{"GET", "POST"}[(bits>>k)&1]
+						}
+						configs = append(configs, config{[]catRoute{tri[a], tri[b], tri[c]}, ms})
+					}
+				}
+			}
+		}
+	}
 	r.Parallel(func(w, nw int, l *core.Local) {
 		env := &c01Env{m: ref.NewMatcher()}
-		for c := w; c < n*n; c += nw {
+		for ci := w; ci < len(configs); ci += nw {
 			if r.Expired() {
 				return
 			}
-			i, j := c/n, c%n
-			if i == j {
-				continue
-			}
-			rs := []catRoute{cat[i], cat[j]}
-			for _, ms := range methodsOf {
+			rs, ms := configs[ci].rs, configs[ci].ms
+			{
 				// reference: one trie per method
 				tries := map[string]*ref.Trie{"GET": ref.NewTrie(), "POST": ref.NewTrie()}
 				usable := true
@@ -464,8 +495,16 @@ func c01FlamePhase(r *core.Run, cat []catRoute, paths []string) {
 								}
 							}
 						}
-						if want >= 0 && ms[0] == ms[1] {
-							l.NonTrivial++
+						if want >= 0 {
+							same := 0
+							for _, mm := range ms {
+								if mm == rm {
+									same++
+								}
+							}
+							if same >= 2 {
+								l.NonTrivial++
+							}
 						}
 						if *hit != want {
 							alone()
